@@ -48,6 +48,9 @@ def run(ctx, chk):
     T = prog.enum("cbor_type")
     Tn = {v: k for k, v in T.items()}
     cache = O.PathCache(prog, eff)
+    for n_, s_ in prog.structs.items():
+        if "size" in s_:
+            _ELEM["%" + n_] = s_["size"]
     CS = typestate.CallSites(prog, eff, cache, H, PA)
     ITEM = ("arg", 0)
 
@@ -233,6 +236,17 @@ def run(ctx, chk):
     chk.exhaustive = True
 
 
+_ELEM = {}
+
+
+def _elem_size(ty):
+    if ty in _ELEM:
+        return _ELEM[ty]
+    if ty and ty.endswith("*"):
+        return 8
+    return None
+
+
 def _canon_slot(t):
     """(handle getter, byte offset of the slot inside the table)"""
     if t[0] == "ld":
@@ -241,7 +255,8 @@ def _canon_slot(t):
             inner = b[1]
             idx = b[3][-1] if b[3] else None
             h = inner[1] if inner[0] == "call" else "ld"
-            return (h, 8 * idx[1] + o) if idx and idx[0] == "c" else (h, "?")
+            esz = _elem_size(b[2])
+            return (h, esz * idx[1] + o) if idx and idx[0] == "c" and esz else (h, "?")
         if isinstance(b, tuple) and b[0] == "call":
             return (b[1], o)
         if isinstance(b, tuple) and b[0] == "p" and b[1][0] == "call":
